@@ -15,7 +15,11 @@ Inductive ty :=
 | TCon (c : nat)                             (* bare TypeConstructor *)
 | TVar (x : nat) (v : variance) (bound : option ty)   (* TypeParameter *)
 | TWild (v : variance) (bound : option ty)   (* WildCardType; bound None = star projection *)
-| TNothing.                                  (* types.Nothing (NothingType classifier) *)
+| TNothing                                   (* types.Nothing (NothingType classifier) *)
+| TCap (id : list nat) (upper lower : option ty).
+    (* a captured (existentially opened) type argument with its bounds.  It exists only inside
+       derivations of the declarative relation (Types/Decl.v); no Python object corresponds to
+       it, the harness never emits it and every model function treats it as an unknown type. *)
 
 (* a class declaration: type parameters (as TVar terms, [] for non-generic classes) and
    declared supertypes (terms over the parameters) *)
@@ -63,6 +67,13 @@ Fixpoint py_eqb (a b : ty) {struct a} : bool :=
   | TVar x v o, TVar y u p => Nat.eqb x y && var_eqb v u && oeq o p
   | TWild v o, TWild u p => var_eqb v u && oeq o p
   | TNothing, TNothing => true
+  | TCap i u l, TCap j u' l' =>
+      (fix ieq (a b : list nat) : bool :=
+         match a, b with
+         | [], [] => true
+         | x :: a', y :: b' => Nat.eqb x y && ieq a' b'
+         | _, _ => false
+         end) i j && oeq u u' && oeq l l'
   | _, _ => false
   end.
 
